@@ -28,7 +28,7 @@ META = {
     "rule": "dtypes float32/float64/complex64/complex128 x arrays (abelian, fermionic with pending signs, block vectors; n<=3; sparsity patterns with missing sectors) x every catalogue "
     "operation at depth 1 and, from arrays with n<=2, every core operation on every result of the structure-creating first operations (fuse, reshape, contraction, decompositions, conj/dagger, sync_charges, fill_missing_blocks, ...: depth 2 reaches unfuse / reshape-back / contraction of fused and truncated results); "
     "non-trivial = call on a single-precision or complex operand that returns at least one array block",
-    "bounds": {"quick": "depth 1 all roots, depth 2 from n<=2", "thorough": "depth 2 from all roots"},
+    "bounds": {"quick": "depth 1 all roots (n<=3 and 4-index arrays over the pair menu: the smallest arrays whose fused blocks can have holes), depth 2 from n<=2", "thorough": "depth 2 from all roots"},
     "assumptions": [
         "expected dtype: the operand's; its real counterpart for singular values, eigenvalues, abs, norm; bool for isfinite/all/any/allclose",
         "values are compared with the float64 / complex128 run of the same call (rel. tol 1e-4 single, 1e-9 double); decompositions are gauge dependent and compared by dtype only (values: C11/C12)",
@@ -193,7 +193,9 @@ def root_failures(d, dtype, st=None, deep=True):
 
 def roots(ctx, sym, ferm):
     out = []
-    plans = [(0, "m3", "all", "all"), (1, "core", "all", "all"), (2, "m3", "all", "le1"), (3, "m2", "two", "probe")]
+    # n=4: the smallest arrays in which a fused block can have a *hole* (a sub-sector stored for one outer sector
+    # and missing for another), i.e. where the strategies have to create zero blocks
+    plans = [(0, "m3", "all", "all"), (1, "core", "all", "all"), (2, "m3", "all", "le1"), (3, "m2", "two", "probe"), (4, "m1", "two", "le1")]
     for n, menu, charges, sp in plans:
         kw = dict(ferm=True, phases="probe0", label=3) if ferm else {}
         for d in U.arrays(sym, n, menu, "a", charges, sp, **kw):
@@ -231,6 +233,8 @@ def run_group(ctx, group):
             continue
         # every dtype on the small roots; rotate dtypes over the larger ones (all four over the residue classes)
         dts = DTYPES if n <= 1 else (DTYPES[(i // nch + ctx.seed) % 4],)
+        if n == 4:
+            dts = (("float32", "complex64")[(i // nch + ctx.seed) % 2],)
         if ctx.thorough:
             dts = DTYPES
         for dt in dts:
